@@ -53,6 +53,15 @@ def main(argv=None):
                 mod.replay(ctx, data)
         else:
             mod.run(ctx)
+            corpus = common.regression_corpus(prop)
+            if corpus and hasattr(mod, "replay"):
+                rule = ctx.coverage.get("rule")
+                cap = None if ctx.thorough() else getattr(mod, "CORPUS_QUICK_CAP", 60)
+                for entry in corpus[:cap]:
+                    mod.replay(ctx, entry)
+                    ctx.count("regression-corpus")
+                ctx.coverage["rule"] = (rule or "") + " Plus the regression corpus corpus/%s.jsonl (%d recorded inputs on which a seeded " \
+                    "change or a repaired defect violated the property)." % (prop, len(corpus[:cap]))
         return ctx.finish()
     except Exception:
         traceback.print_exc()
